@@ -343,6 +343,22 @@ def c09(pid, tier, t0):
     }, ["the recording-buffer boundary (inserts of 4080..4100 bytes followed by '.') is only checked for crashes here; C05 runs under AddressSanitizer"])
 
 
+@check("C19")
+def c19(pid, tier, t0):
+    exe = nv.build_harness("c19_screen", "plain", ["c19_screen.c"], wraps=WRAPS)
+    res = nv.run_shards(exe, ["tier=" + tier, "deadline=%d" % dl(tier)], nv.NCPU, dl(tier) + 120)
+    res.stats["distinct_nontrivial"] = res.stats.get("states", 0)
+    res.stats["transitions"] = res.stats.get("transitions", 0) + res.stats.get("twin_probes", 0)
+    return nv.finish(pid, tier, t0, res, {
+        "rule": "all command sequences up to depth over {j k G 1G ^F ^B ^D ^U ^E ^Y dd 3dd o..<ESC> O..<ESC> p x u $ 0 J :2,4d :$ z<CR> z. z-} (and, one level less, also H L P ^R 20| i..<CR>..<ESC> :1 yy 5j w "
+                "^Ws ^Wj ^Wo 3yy 5k) from buffers of 0/3/40 lines (long lines, tabs, wide characters, empty lines) in windows 5x20, 8x40, 24x80 with hl/hll on and off; every idle state is checked",
+        "depth_bound": res.stats.get("depth"),
+        "explanation": "the bytes written to fd 1 drive an in-process VT100 emulator (CUP, CR, LF with scroll region, CSI L/M/K/C/D/r, SGR ignored, 2-cell characters); in every idle state (1) the text rows equal a "
+                       "reference rendering of lines xtop.. clipped at xleft (fillers past the end), the window holds the cursor line and the terminal cursor lies in the cells of character (xrow,xoff); "
+                       "(2) a twin fills the grid with a sentinel, sends ^L, and its fully repainted rows and cursor must equal the incrementally maintained ones",
+    }, ["the message row is not compared", "with two windows only the differential (repaint) oracle is used", "right-to-left lines are not in these buffers"])
+
+
 def replay(path):
     print("replay artefact:")
     print(open(path).read())
